@@ -233,22 +233,32 @@ def rand_title(r):
     return bytes(r.choice(b'ABCDEFGHIJKLMNOPQRSTUVWXYZ abcdefghij0123456789-') for _ in range(n)).rstrip(b' ')
 
 
-def gen_disc(r, variant=None, hostile=False, max_files=None, geom=None, total=None):
+def gen_disc(r, variant=None, hostile=False, max_files=None, geom=None, total=None, opus_nvol=None, opus_style=None, opus_reorder=None):
     variant = variant or r.choice(['dfs', 'dfs', 'wdfs', 'wdfs', 'opus'])
     used = set()
     if variant == 'opus':
         tracks = r.choice([40, 80, 35])
         spt = 18
         d = AbsDisc('opus', tracks, spt)
-        nvol = r.choice([1, 1, 2, 3, 8])
-        letters = sorted(r.shuffle(list(range(8)))[:nvol]) if r.chance(1, 3) else list(range(nvol))
+        nvol = opus_nvol or r.choice([1, 1, 2, 3, 8])
+        # which letters exist: A.. without a gap; or with letters missing before present ones (a deleted volume leaves its slot of the
+        # volume table empty - the catalogue of letter i still lives in sectors 2i, 2i+1); dealt in turn (balanced choice)
+        style = opus_style or r.choice(['contiguous', 'gap', 'contiguous', 'gap-after-a'])
+        if style == 'gap' and nvol < 8:
+            letters = sorted(r.shuffle(list(range(8)))[:nvol])
+        elif style == 'gap-after-a' and 2 <= nvol < 7:
+            letters = [0] + sorted(r.shuffle(list(range(2, 8)))[:nvol - 1])
+        else:
+            letters = list(range(nvol))
         # start tracks strictly increasing from 1
         cuts = sorted(r.shuffle(list(range(2, tracks)))[:nvol - 1])
         starts = [1] + cuts
         ends = cuts + [tracks]
         # the volume table gives each letter its own start track: the letters need not lie on the disc in alphabetical order
-        if nvol > 1 and r.chance(1, 2):
+        if nvol > 1 and (r.chance(1, 2) if opus_reorder is None else opus_reorder):
             perm = r.shuffle(list(range(nvol)))
+            if opus_reorder and perm == sorted(perm):
+                perm = perm[::-1]
             starts = [starts[j] for j in perm]
             ends = [ends[j] for j in perm]
         for k, i in enumerate(letters):
